@@ -2,7 +2,8 @@
 (* Trace validation for C19: every recorded Set on a real MPDrawParams, every drawn-set / *)
 (* lanelet observation of a real MPRenderer and every draw / render outcome is checked     *)
 (* against the operators of Render.tla.  Events are self-contained (a Set event carries    *)
-(* the values of the field at all nodes and the list of everything that changed).          *)
+(* the values of the field at all nodes and the list of everything that changed; a Replace *)
+(* event carries what the assigned group was built with / holds and what else changed).     *)
 EXTENDS Render, IOUtils
 Traces == ndJsonDeserialize(IOEnv.TRACE_FILE)
 
@@ -18,6 +19,14 @@ Clause(e) ==
          ELSE IF e.res # "ok" THEN "C19.Propagate/raised"
          ELSE IF Missed(e.node, e.field, e.v, e.vals) # {} THEN "C19.Propagate/missed"
          ELSE IF Clobbered(e.node, e.field, e.changed) # {} THEN "C19.Propagate/clobbered"
+         ELSE ""
+    [] e.op = "replace" ->
+         IF <<e.node, e.child>> \notin Slots THEN "driver/unknown-slot"
+         ELSE IF e.res # "ok" THEN "C19.Replace/raised"
+         ELSE IF e.holds # 1 THEN "C19.Replace/lost"                           \* node.child is not the assigned group
+         ELSE IF BadAliases(e.node, e.child, e.aliases) # {} \/ ReplaceClobbered(e.node, e.child, e.changed, e.aliases) # {}
+              THEN "C19.Replace/clobbered"                                     \* something outside the new group changed
+         ELSE IF Garbled(e.differs, e.pvals) # {} THEN "C19.Replace/garbled"   \* neither built-with nor the parent's value
          ELSE ""
     [] e.op = "drawn" ->
          IF \E x \in SeqSet(e.obs) : ~ValidDesc(x) THEN "driver/descriptor"
